@@ -30,7 +30,7 @@ CHECKS["C15"] = ("Proof: listing->ASCII BASIC shape and 7-bit; ASCII BASIC->list
                  "Lean 4 theorems + model/code correspondence (differential, exhaustive small scope)", "7 C15")
 
 T = "Lean 4 theorems + model/code correspondence (differential CLI runs) + format oracle"
-CHECKS["C01"] = ("Proof: C01.roundtrip_directory — distinct catalog names: after create + extract each source's content is under its name in the destination; C01.roundtrip — for every list of readable sources with ordinary 8.3 names that fits, and any contents, the "
+CHECKS["C01"] = ("Proof: C01.roundtrip_beside_archive — without --into the only path condition is that no member is named like the archive (lexical path normalisation, Proofs/PathNorm.lean); C01.roundtrip_directory — distinct catalog names: after create + extract each source's content is under its name in the destination; C01.roundtrip — for every list of readable sources with ordinary 8.3 names that fits, and any contents, the "
                  "model's create writes an archive from which the model's extract writes every file byte for byte under its "
                  "upper-cased name beside the archive / under --into, and list names exactly those files in order (composition of the "
                  "writer invariant, the reader theorem on rendered tapes and the whole-file reader lemma). Tie: create/list/extract of "
@@ -51,7 +51,7 @@ CHECKS["C09"] = ("Proof: C09.accepted / refused / accepted_iff / missing_source 
                  "single-file lengths across the frontier, missing sources at every index, pre-existing target.", T, "7 C09")
 
 D = "Lean 4 theorems (first layer) + model/code correspondence (differential, real tools vs compiled model) + independent-decoder oracle"
-CHECKS["C02"] = ("Proof: C02.small_batch_in_order — a batch that fits on side 0 is stored entry by entry in the order given and extracted as side0/NAME.EXT in that order with its data (the entry taken is the first that is not live); C02.generated_layout (sizes at the top of writeFile, translated); C02.create_then_extract — for every list of sources with ordinary catalog names (any contents, sizes 0 .. beyond a side, "
+CHECKS["C02"] = ("Proof: C02.create_stores_sources_in_order — every created image holds, side by side and in catalog order, exactly the sources placed there in command-line order (a sub-sequence of the command line, sides never decreasing); listing_and_extraction_follow_catalog_order; add_appends_sources_in_order; C02.create_then_extract_beside_archive — without --into the round trip needs no path hypothesis (members go two levels below the archive's directory); C02.small_batch_in_order — a batch that fits on side 0 is stored entry by entry in the order given and extracted as side0/NAME.EXT in that order with its data (the entry taken is the first that is not live); C02.generated_layout (sizes at the top of writeFile, translated); C02.create_then_extract — for every list of sources with ordinary catalog names (any contents, sizes 0 .. beyond a side, "
                  "end-of-side markers, missing files, refusals) --create returns 0 and writes the archive of a consistent image; --extract of that "
                  "archive (either verbosity, with or without --into) returns 0 and writes exactly the files of the image as target/sideN/NAME.EXT in "
                  "catalog order; every file of the image is the exact data of one of the sources under the entry written for it. Built on "
@@ -77,14 +77,14 @@ CHECKS["C05"] = ("Proof: C05.every_history_consistent / every_archive_consistent
                  "SideInv => accepted by the independent Spec.Dos.fsck is C04.consistent_side_passes_fsck. Tie/oracle: all histories of depth "
                  "<= 2/3 over 9 step kinds, random ones, third-party pre-images with a full catalog and fragmented free space; each step vs model + "
                  "independent fsck + full read-back.", D, "7 C05")
-CHECKS["C06"] = ("Proof: C06.used_blocks_never_modified — a whole --add leaves every sector of every block that was not free (track 20 apart) byte-identical and still not free; C06.add_keeps_every_file — --add on the archive of any consistent image (whoever wrote it, however fragmented, deleted "
+CHECKS["C06"] = ("Proof: C06.catalog_and_table_change_only_for_added_files — over a whole --add every catalog entry is unchanged unless it was not live and now is, every table status unchanged unless the block was free and no longer is; C06.used_blocks_never_modified — a whole --add leaves every sector of every block that was not free (track 20 apart) byte-identical and still not free; C06.add_keeps_every_file — --add on the archive of any consistent image (whoever wrote it, however fragmented, deleted "
                  "entries or not) with any batch returns 0 and writes a consistent image in which every file that was stored is still in the same "
                  "catalog slot with the same 16 entry bytes and the same content; every other file is the exact data of one of the sources; "
                  "old_files_intact (controller level); a sector write touches one sector; the table setter rewrites bytes 1..160 only; adding nothing "
                  "saves the loaded sides and (fd) rewrites the image byte for byte. The frame on sectors of used blocks is proved inside the "
                  "invariant proof (mid_facts), the byte frame of table/catalog is checked. Tie/oracle: pre-images from tool histories, an "
                  "independent writer (incl. full catalog + fragmented free space) and the bundled real image (incl. batches reaching its never-formatted sides), then arbitrary batches; byte-level frame check.", D, "7 C06")
-CHECKS["C07"] = ("Proof: C07.images_of_one_two_or_four_sides — emulator images of 1 or 2 sides and 4-sided images of either flavour are loaded, listed and extracted exactly (load_save_n); C07.wellformed_image_extracted_exactly — for every four-sided image whose sides are consistent file systems (any writer, "
+CHECKS["C07"] = ("Proof: C07.listed_kind_is_recorded_kind / kind_words — the kind words printed are those of bytes 11/12 on disk; C07.wellformed_image_extracted_beside_archive; C07.images_of_one_two_or_four_sides — emulator images of 1 or 2 sides and 4-sided images of either flavour are loaded, listed and extracted exactly (load_save_n); C07.wellformed_image_extracted_exactly — for every four-sided image whose sides are consistent file systems (any writer, "
                  "any allocation order, fragmentation, deleted / never-used entries anywhere) with ordinary names, --extract returns 0 and writes "
                  "per side exactly the files the independent decoder Spec.Dos.files finds, in catalog order, with the content it assigns to the "
                  "chain; C07.independent_writer_is_read_exactly — for every well-formed description of a side (any slots, allocation order, "
@@ -93,7 +93,7 @@ CHECKS["C07"] = ("Proof: C07.images_of_one_two_or_four_sides — emulator images
                  "description's files with exactly their content; chain following on any linked table, size formula, load side counts, efficient "
                  "reader = readFile. Tie/oracle: images from an independent writer (Python twin = Lean render, incl. one 157-block chain) through real "
                  "list/extract vs model vs abstract files.", D, "7 C07")
-CHECKS["C10"] = ("Proof: C10.placement_rule — a file offered while the cursor is on side cur is stored on the first side k >= cur that has enough "
+CHECKS["C10"] = ("Proof: C10.created_catalogs_follow_storage_order / added_files_are_appended — on every side of every created image, and after any --add, the live catalog entries are exactly the first n: each stored file is appended after those stored before it; C10.placement_rule — a file offered while the cursor is on side cur is stored on the first side k >= cur that has enough "
                  "free blocks and a free catalog entry, the cursor stops there; if none can take it, it is stored nowhere and the cursor ends past "
                  "the fourth side; end_of_side_marker (cursor + 1, no side touched); C10.file_stored_in_one_place — one file offered to the injector, with all its retries on the following sides, either "
                  "leaves every catalog slot of every side as it was or appears in exactly one slot of one side that held nothing, with its whole "
@@ -152,7 +152,7 @@ CHECKS["C20"] = ("Proof: tape create is a function of the sources' contents only
                  "list writes nothing, extract only under the destination; C20.performCore_pure — two disk batches on the same image whose sources agree "
                  "position by position on catalog name, extensions, option and content give the same image or the same failure, whatever the "
                  "verbosity, archive name and path spelling; same_source_of_spelling / tape_specFile_spelling — the directory part of a source "
-                 "path (relative, absolute, dotted directories) enters neither the disk nor the tape archive; C20.tape_/disk_extract_never_overwrites_archive — for every byte string given as archive and every destination no path --extract writes is the archive itself. Tie/oracle: archives holding a member named like themselves extracted onto / beside / away from the archive; paired real runs (twice, quiet/verbose, relative/absolute/dotted paths, "
+                 "path (relative, absolute, dotted directories) enters neither the disk nor the tape archive; C20.tape_create_/disk_create_/disk_add_refuses_archive_as_source — a source argument that is the archive's own path gives a non-zero status and no write; C20.tape_/disk_extract_never_overwrites_archive — for every byte string given as archive and every destination no path --extract writes is the archive itself. Tie/oracle: archives holding a member named like themselves extracted onto / beside / away from the archive; paired real runs (twice, quiet/verbose, relative/absolute/dotted paths, "
                  "old target) must be byte-identical; archives and sources hashed and mtime-checked around reads.", D, "7 C20")
 
 PENDING = {}
